@@ -1,5 +1,6 @@
 import VibeProof.Model.Rel
 import VibeProof.Model.Expr
+import VibeProof.Model.Sql
 /-
 C06 — Predicates partition rows consistently under three-valued logic.
 
@@ -126,6 +127,101 @@ theorem C06_sql_is_null (e : Expr) (row : Row) (v : TV) (h : (e.eval row).bind V
         simp [bind, Except.bind, Value.toTV, Value.isNull, isU, pure, Except.pure]
     | int i => simp [Value.toTV] at h
     | str s => simp [Value.toTV] at h
+
+/-! ### GROUP BY / HAVING forms -/
+
+theorem filter3_comm_filter {α : Type} (p : α → TV) (g : α → Bool) (rows : List α) :
+    (filter3 p rows).filter g = filter3 p (rows.filter g) := by
+  unfold filter3
+  rw [List.filter_filter, List.filter_filter]
+  congr 1; funext r; exact Bool.and_comm _ _
+
+/-- GROUP BY form: for every group key the group of Q is the disjoint union of the groups with
+that key in the three parts — so every per-group COUNT(*) adds up -/
+theorem C06_group_partition {α κ : Type} [DecidableEq κ] (p : α → TV) (key : α → κ) (k : κ) (rows : List α) :
+    ((filter3 p rows).filter (fun r => key r = k) ++
+      ((filter3 (fun r => not3 (p r)) rows).filter (fun r => key r = k) ++
+       (filter3 (fun r => isU (p r)) rows).filter (fun r => key r = k))).Perm
+      (rows.filter (fun r => key r = k)) := by
+  simp only [filter3_comm_filter]
+  exact C06_partition p _
+
+theorem C06_group_counts_additive {α κ : Type} [DecidableEq κ] (p : α → TV) (key : α → κ) (k : κ) (rows : List α) :
+    ((filter3 p rows).filter (fun r => key r = k)).length +
+      (((filter3 (fun r => not3 (p r)) rows).filter (fun r => key r = k)).length +
+       ((filter3 (fun r => isU (p r)) rows).filter (fun r => key r = k)).length)
+      = (rows.filter (fun r => key r = k)).length := by
+  have := (C06_group_partition p key k rows).length_eq
+  simpa [List.length_append] using this
+
+/-- a group key appears in Q iff it appears in one of the three parts -/
+theorem C06_group_keys {α κ : Type} (p : α → TV) (key : α → κ) (k : κ) (rows : List α) :
+    k ∈ rows.map key ↔ (k ∈ (filter3 p rows).map key ∨ k ∈ (filter3 (fun r => not3 (p r)) rows).map key
+        ∨ k ∈ (filter3 (fun r => isU (p r)) rows).map key) := by
+  simp only [List.mem_map]
+  constructor
+  · rintro ⟨r, hr, rfl⟩
+    rcases (C06_distinct_form p rows r).mp hr with h | h | h
+    · exact Or.inl ⟨r, h, rfl⟩
+    · exact Or.inr (Or.inl ⟨r, h, rfl⟩)
+    · exact Or.inr (Or.inr ⟨r, h, rfl⟩)
+  · rintro (⟨r, hr, rfl⟩ | ⟨r, hr, rfl⟩ | ⟨r, hr, rfl⟩) <;>
+      exact ⟨r, ((C06_filter_mem _ rows r).mp hr).1, rfl⟩
+
+/-- HAVING form: the groups of Q split three ways under a HAVING predicate exactly as rows do
+under WHERE (the statement is `C06_partition` at the type of groups) -/
+theorem C06_having_partition {κ ρ : Type} (h : κ × List ρ → TV) (groups : List (κ × List ρ)) :
+    (filter3 h groups ++ (filter3 (fun g => not3 (h g)) groups ++ filter3 (fun g => isU (h g)) groups)).Perm groups :=
+  C06_partition h groups
+
+/-! ### the WHERE step of the reference evaluator is `filter3` -/
+
+theorem filterM'_ok {α : Type} (f : α → Except Err Bool) (g : α → Bool) (l : List α)
+    (h : ∀ x ∈ l, f x = .ok (g x)) : Sql.filterM' f l = .ok (l.filter g) := by
+  induction l with
+  | nil => rfl
+  | cons x xs ih =>
+    have hx := h x List.mem_cons_self
+    have ih' := ih (fun y hy => h y (List.mem_cons_of_mem _ hy))
+    simp only [Sql.filterM', hx, ih', bind, Except.bind, pure, Except.pure, List.filter_cons]
+
+theorem C06_sql_where_is_filter3 (e : Expr) (rows : List Row) (tv : Row → TV)
+    (h : ∀ r ∈ rows, e.tv r = .ok (tv r)) :
+    Sql.filterM' (fun r => do Sql.isTrue (← e.eval r)) rows = .ok (filter3 tv rows) := by
+  unfold filter3
+  apply filterM'_ok
+  intro r hr
+  have := h r hr
+  unfold Expr.tv at this
+  cases he : e.eval r with
+  | error x => simp [he, bind, Except.bind] at this
+  | ok v =>
+    simp only [he, bind, Except.bind] at this
+    simp only [Sql.isTrue, this, bind, Except.bind, pure, Except.pure]
+
+/-- so the three SQL queries `WHERE e`, `WHERE NOT e`, `WHERE e IS NULL` of the reference
+evaluator partition the input whenever `e` is boolean-typed on every row -/
+theorem C06_sql_partition (e : Expr) (rows : List Row) (tv : Row → TV)
+    (h : ∀ r ∈ rows, (e.eval r).bind Value.toTV = .ok (tv r)) :
+    ∃ a b c, Sql.filterM' (fun r => do Sql.isTrue (← e.eval r)) rows = .ok a ∧
+      Sql.filterM' (fun r => do Sql.isTrue (← (Expr.not e).eval r)) rows = .ok b ∧
+      Sql.filterM' (fun r => do Sql.isTrue (← (Expr.isNull e false).eval r)) rows = .ok c ∧
+      (a ++ (b ++ c)).Perm rows := by
+  have toTV_tv : ∀ (x : Except Err Value) (v : TV), x.bind Value.toTV = .ok v → x.bind Value.truthy = .ok v := by
+    intro x v hx
+    cases x with
+    | error _ => simp [Except.bind] at hx
+    | ok y => cases y with
+      | null => simpa [Except.bind, Value.toTV, Value.truthy] using hx
+      | bool b => cases b <;> simpa [Except.bind, Value.toTV, Value.truthy, TV.ofBool] using hx
+      | int _ => simp [Except.bind, Value.toTV] at hx
+      | str _ => simp [Except.bind, Value.toTV] at hx
+  refine ⟨_, _, _, C06_sql_where_is_filter3 e rows tv ?_,
+    C06_sql_where_is_filter3 (Expr.not e) rows (fun r => not3 (tv r)) ?_,
+    C06_sql_where_is_filter3 (Expr.isNull e false) rows (fun r => isU (tv r)) ?_, C06_partition tv rows⟩
+  · intro r hr; exact toTV_tv _ _ (h r hr)
+  · intro r hr; exact toTV_tv _ _ (C06_sql_not e r _ (h r hr))
+  · intro r hr; exact toTV_tv _ _ (C06_sql_is_null e r _ (h r hr))
 
 /-- non-vacuity: a table on which a predicate takes all three truth values -/
 example : let p : Nat → TV := fun n => if n = 0 then u else if n % 2 = 0 then t else f
